@@ -58,8 +58,17 @@ if [ "$WITH_OLD" = 1 ]; then
 fi
 
 # ---------------------------------------------------------------- pristine copy + baseline
+# The patches are written against the COMMITTED tree: take HEAD when $REPO is a git
+# checkout (its working tree may carry somebody's experiment), else the directory as is.
 mkdir -p "$TMP/pristine"
-( cd "$REPO" && tar --exclude=.git -cf - . ) | tar -xf - -C "$TMP/pristine"
+if git -C "$REPO" rev-parse --verify -q HEAD > /dev/null 2>&1 && [ "${SELFTEST_WORKTREE:-0}" != 1 ]; then
+  git -C "$REPO" archive HEAD | tar -xf - -C "$TMP/pristine"
+  if [ -n "$(git -C "$REPO" status --porcelain 2>/dev/null | head -1)" ]; then
+    say "note: $REPO has uncommitted changes; the suite runs on its HEAD ($(git -C "$REPO" rev-parse --short HEAD))"
+  fi
+else
+  ( cd "$REPO" && tar --exclude=.git -cf - . ) | tar -xf - -C "$TMP/pristine"
+fi
 
 # tie_check <Extracted.v> <workdir>: compiles Extracted.v, TieLib.v and every Tie_C*.v in a
 # private copy of gen/; prints the names of the Tie files that fail (one per line, with
@@ -105,7 +114,7 @@ if [ -s "$TMP/basecheck/failed.txt" ]; then
   exit 2
 fi
 if ! diff -q "$TMP/base.v" "$COQ/gen/Extracted.v" > /dev/null 2>&1; then
-  say "note: translator output for $REPO differs from $COQ/gen/Extracted.v (stale file, or VERIF_REPO set)"
+  say "note: translator output for the pristine tree differs from $COQ/gen/Extracted.v (that file follows the working tree of the last ./check run)"
 fi
 if [ "$WITH_OLD" = 1 ]; then
   "$TMP/translator_old" "$TMP/pristine" > "$TMP/base_old.v"
